@@ -1,6 +1,7 @@
 package syncer
 
 import (
+	"os"
 	"encoding/json"
 	"fmt"
 	"strconv"
@@ -486,6 +487,8 @@ func runC14(t *testing.T, rep *mc.Reporter) {
 	}
 	idx := 0
 	// ---- cluster variant: two parallel lanes, completion order across lanes is explored
+	// {0,1,0}: a unit committed and the frontier stored, then one unit per lane in flight - the
+	// later one can commit first, so a stop can leave a hole right behind a stored frontier
 	laneSeqs := [][]int{{1, 0}}
 	cbound, ccrashes := 1, 1
 	if tier == "thorough" {
@@ -498,11 +501,20 @@ func runC14(t *testing.T, rep *mc.Reporter) {
 		bound int
 		mode  string
 		pre   []int
+		auto  bool
+		same  bool
 	}
 	var cplans []cplan
 	for _, ls := range laneSeqs {
 		cplans = append(cplans, cplan{lanes: ls, bound: cbound, mode: "parallel"})
 	}
+	// {0,1,0} with the frontier stored as soon as possible: a unit committed and the frontier stored,
+	// then one unit per lane in flight - the later one can commit first, so a stop can leave a hole
+	// right behind a stored frontier
+	cplans = append(cplans, cplan{lanes: []int{0, 1, 0}, bound: 1, mode: "parallel", auto: true})
+	// the same with the stored frontier coming from earlier units of the same life: the first
+	// judged start already resumes from it, so falling back behind it is visible at once
+	cplans = append(cplans, cplan{lanes: []int{1, 0}, bound: 1, mode: "parallel", pre: []int{0, 1}, same: true, auto: true})
 	// sync mode on the cluster, also as the second life of a namespace: three units on one slot,
 	// a full resync under the same run id, then fewer units on another slot
 	cplans = append(cplans, cplan{lanes: []int{1, 0}, bound: 0, mode: "sync"}, cplan{lanes: []int{1, 1}, bound: 0, mode: "sync", pre: []int{0, 0, 0}})
@@ -520,6 +532,17 @@ func runC14(t *testing.T, rep *mc.Reporter) {
 	if !budget.Deadline.IsZero() && tier == "thorough" {
 		cbudget.Deadline = time.Now().Add(time.Until(budget.Deadline) * 2 / 5)
 	}
+	fam := os.Getenv("VERIF_FAMILY") // development aid / parts: "cauto" = only the AutoFlush cluster plan
+	if fam == "cauto" {
+		var keep []cplan
+		for _, cp := range cplans {
+			if cp.same {
+				keep = append(keep, cp)
+			}
+		}
+		cplans = keep
+		plans = nil
+	}
 	for _, cp := range cplans {
 		// one execution costs about half a second (every start scans the 16384 slots): all shards
 		// share each of these scenarios, divided at the root of its execution tree
@@ -527,7 +550,7 @@ func runC14(t *testing.T, rep *mc.Reporter) {
 			rep.Capped("cluster scenarios: their share of the deadline is used up")
 			break
 		}
-		cscn := c14cScenario{Lanes: cp.lanes, Cfg: biCfg{cp.mode, 2}, MaxCrashes: ccrashes, Idle: 1, Cluster: true, Soft: cp.soft, Pre: cp.pre}
+		cscn := c14cScenario{Lanes: cp.lanes, Cfg: biCfg{cp.mode, 2}, MaxCrashes: ccrashes, Idle: 1, Cluster: true, Soft: cp.soft, Pre: cp.pre, AutoFlush: cp.auto, PreSameLife: cp.same}
 		if cp.soft {
 			cscn.MaxCrashes, cscn.Idle = 0, 0
 		}
